@@ -44,10 +44,10 @@ Fixpoint stream (o : oracle) (k : nat) (calls : list str) : str :=
 (* ------------------------------------------------------------------ state *)
 
 (* s_sock / s_log: arguments of every Write call made on the socket / on the
-   log file so far, oldest first; s_queue: the UnAckQueue (Model/Queue.v). *)
-Record state := mkS { s_sock : list str; s_log : list str; s_queue : queue }.
+   log file so far, oldest first; s_queue: the UnAckQueue object (Model/Queue.v: entries and lastId). *)
+Record state := mkS { s_sock : list str; s_log : list str; s_queue : qstate }.
 
-Definition st0 : state := mkS [] [] [].
+Definition st0 : state := mkS [] [] q_init.
 
 Definition sock_write (so : oracle) (st : state) (p : str) : state * wres :=
   (mkS (s_sock st ++ [p]) (s_log st) (s_queue st), so (length (s_sock st))).
